@@ -70,7 +70,32 @@ VARIANTS = [
     dict(name="estimation-getter-reads-gt-side", kind="break", rule="C19-counts", edits=[(AB, '        df = df.xs("estimation", level=1)\n', '        df = df.xs("ground_truth", level=1)\n')]),
     dict(name="placeholder-row-has-status", kind="break", rule="C19-counts", edits=[(A3,
         "                else:\n                    est_ret[key] = None", "                else:\n                    est_ret[key] = str(status) if key == \"status\" else None")]),
+    dict(name="seed-scene-truthiness", kind="break", rule="C19-selection", edits=[(A3, "        if scene is not None:\n            kwargs.update({\"scene\": scene})", "        if scene:\n            kwargs.update({\"scene\": scene})")]),
+    dict(name="area-truthiness", kind="break", rule="C19-selection", edits=[(A3, "        if area is not None:\n            kwargs.update({\"area\": area})", "        if area:\n            kwargs.update({\"area\": area})")]),
+    dict(name="area-selection-stored-as-scene", kind="break", rule="C19-selection", edits=[(A3, 'kwargs.update({"area": area})', 'kwargs.update({"scene": area})')]),
+    dict(name="errors-from-whole-table", kind="break", rule="C19-selection", edits=[(A3, "            error_df = self.summarize_error(df=df)\n", "            error_df = self.summarize_error()\n")]),
+    dict(name="confusion-before-distance-filter", kind="break", rule="C19-selection", edits=[(A3,
+        "        df: pd.DataFrame = self.get(**kwargs)\n        if distance is not None:\n            df = self.filter_by_distance(distance, df)\n",
+        "        df: pd.DataFrame = self.get(**kwargs)\n        all_df = df\n        if distance is not None:\n            df = self.filter_by_distance(distance, df)\n"),
+        (A3, "confusion_matrix_df = self.get_confusion_matrix(df=df)", "confusion_matrix_df = self.get_confusion_matrix(df=all_df)")]),
+    dict(name="filter-keeps-half-pairs", kind="break", rule="C19-selection", edits=[(AB, "            mask *= cur_mask.groupby(level=0).any().repeat(2).values\n", "            mask *= cur_mask.values\n")]),
+    dict(name="filter-inverted-equality", kind="break", rule="C19-selection", edits=[(AB, "                cur_mask = df[key] == item\n            mask *=", "                cur_mask = df[key] != item\n            mask *=")]),
+    dict(name="seed-stale-alias-reaches-pass-fail", kind="break", rule="C03-critical", edits=[
+        (FR, """        self.frame_ground_truth = copy(self.frame_ground_truth)
+        self.frame_ground_truth.objects = filter_objects(
+            self.frame_ground_truth.objects,""", """        frame_ground_truth = self.frame_ground_truth
+        self.frame_ground_truth = copy(frame_ground_truth)
+        self.frame_ground_truth.objects = filter_objects(
+            frame_ground_truth.objects,"""),
+        (FR, "self.pass_fail_result.evaluate(self.object_results, self.frame_ground_truth.objects)", "self.pass_fail_result.evaluate(self.object_results, frame_ground_truth.objects)")]),
+    dict(name="seed-yaw-wrap-inplace-wrong-sign", kind="break", rule="R-ANGLEWRAP", edits=[(AB,
+        "                err[err > np.pi] = -2 * np.pi + err[err > np.pi]\n                err[err < -np.pi] = 2 * np.pi + err[err < -np.pi]\n",
+        "                err[err > np.pi] -= 2 * np.pi\n                err[err < -np.pi] -= 2 * np.pi\n")]),
     # benign
+    dict(name="scene-none-test-negated", kind="benign", edits=[(A3, "        if scene is not None:\n            kwargs.update({\"scene\": scene})", "        if not (scene is None):\n            kwargs.update({\"scene\": scene})")]),
+    dict(name="yaw-wrap-inplace", kind="benign", edits=[(AB,
+        "                err[err > np.pi] = -2 * np.pi + err[err > np.pi]\n                err[err < -np.pi] = 2 * np.pi + err[err < -np.pi]\n",
+        "                err[err > np.pi] -= 2 * np.pi\n                err[err < -np.pi] += 2 * np.pi\n")]),
     dict(name="num-tp-sum-method", kind="benign", edits=[(AB, 'return sum(df_["status"] == "TP")', 'return int((df_["status"] == "TP").sum())')]),
     dict(name="transform-key-inlined", kind="benign", edits=[(A3, GT_T,
         "            transform_key = TransformKey(gt.frame_id, FrameID.BASE_LINK)\n            gt_position, gt_rotation = transforms.transform(TransformKey(gt.frame_id, FrameID.BASE_LINK), gt.state.position, gt.state.orientation)")]),
